@@ -493,11 +493,12 @@ func runLB(work, prop string) {
 	scheds := []rpc.Scheduling{rpc.RoundRobinScheduling, rpc.RandomScheduling, rpc.LeastTimeScheduling}
 	for i := 0; i < n; i++ {
 		r := newLBRun(e, scheds[i%3])
-		if i%10 == 6 || ((prop == "C18" || prop == "C17" || prop == "C16") && i%5 == 1) {
+		scripted := i < 80 // the scripted histories wait for real detector ticks: a fixed number of them, whatever the tier
+		if scripted && (i%10 == 6 || ((prop == "C18" || prop == "C17" || prop == "C16") && i%5 == 1)) {
 			r.scriptSwap()
-		} else if i%10 == 8 || (prop == "C18" && i%5 == 2) {
+		} else if scripted && (i%10 == 8 || (prop == "C18" && i%5 == 2)) {
 			r.scriptBlackout()
-		} else if prop == "C18" && i%5 == 3 {
+		} else if scripted && prop == "C18" && i%5 == 3 {
 			r.scriptLastTarget()
 		} else if i%4 == 3 || (prop == "C17" && i%2 == 1) || prop == "C08" {
 			// many live targets: deep heap nodes, long rotations
@@ -506,6 +507,7 @@ func runLB(work, prop string) {
 		} else {
 			r.script()
 		}
+		r.drainGates()
 		cases = append(cases, r.cases...)
 		e.count("history", fmt.Sprintf("%s-%s", schedCoq[r.sched], strings.Join(lbShape(r.trace), ",")))
 		if len(e.Res.Samples) < 4 {
@@ -901,6 +903,24 @@ func (r *lbRun) scriptLastTarget() {
 	r.e.count("last-target", "lt")
 	r.c.Close()
 	r.closed = true
+}
+
+// drainGates lets the detector checks (and calls) still held at the end of a history return, so that their
+// goroutines end: thousands of parked goroutines make every quiescence test slower
+func (r *lbRun) drainGates() {
+	if !r.closed {
+		r.c.Close()
+		r.closed = true
+	}
+	for k := 0; k < 5; k++ {
+		for _, w := range r.rt.pingGate.list() {
+			r.rt.pingGate.release(w, rpc.ErrDial)
+		}
+		for _, w := range r.rt.callGate.list() {
+			r.rt.callGate.release(w, rpc.ErrDial)
+		}
+		time.Sleep(200 * time.Microsecond)
+	}
 }
 
 func (r *lbRun) anyDead() bool {
